@@ -206,6 +206,8 @@ def obligations(tier, seed):
     for nord in (1, 2, 3):
         obs.append(ob_value(nord, 3, 'sym', 1))
     obs.append(ob_value(2, 3, 'sym', 2))
+    obs.append(ob_value(2, 3, 'sym', 3))           # three points: orders whose sorting permutation is not an involution
+    obs.append(ob_value(4, 5, 'gap', 3))
     for nord in (3, 4):
         obs.append(ob_value(nord, 4, 'clustered', 2))
     obs.append(ob_value(5, 4, 'uniform', 1))
